@@ -35,7 +35,7 @@ theorem ef_popsum_loop (c : Cfg) (ws : Array Nat) (hw : ∀ i, wordAt ws i < 2^6
     exact ih (i + 1) (by omega)
 
 /-- exit of the push loop of `from_bits` -/
-def fbExit : Option EFB → RS.Exit EFB (RS.Res EF)
+def efFbExit : Option EFB → RS.Exit EFB (RS.Res EF)
   | some b => .done b
   | none => .ret RS.Res.err
 
@@ -49,7 +49,7 @@ theorem ef_fb_loop (c : Cfg) (bv : BV) (hinv : bv.Inv) (body : Nat → EFB → R
             | .ok _ => .ok (.next r.1))
       else .ok (.next b)) :
     ∀ n i b, i + n ≤ bv.len → Fits b →
-      RS.forCountB body i n b = (EF.pushAll b ((List.range' i n).filter bv.bitAt)).map fbExit := by
+      RS.forCountB body i n b = (EF.pushAll b ((List.range' i n).filter bv.bitAt)).map efFbExit := by
   intro n
   induction n with
   | zero => intro i b _ _; rfl
@@ -64,7 +64,7 @@ theorem ef_fb_loop (c : Cfg) (bv : BV) (hinv : bv.Inv) (body : Nat → EFB → R
       exact ih (i + 1) b (by omega) hf
     | true =>
       rw [if_pos rfl, if_pos rfl, efb_push_eq c b hf i]
-      show _ = Except.map fbExit ((b.push i).bind _)
+      show _ = Except.map efFbExit ((b.push i).bind _)
       cases hp : b.push i with
       | error x => rfl
       | ok r =>
@@ -133,14 +133,14 @@ theorem ef_from_bits_eq (c : Cfg) (bits : List Bool) (hl : 2 * bits.length + 2 <
 
 /-- `n` successive calls of the generated `Iter::next`, collecting the answers (the generated counterpart of
     `EFQ.itRun`) -/
-def genItRun (c : Cfg) : Nat → GenFn.iter_Iter → R (GenFn.iter_Iter × List (Option Nat))
+def efGenItRun (c : Cfg) : Nat → GenFn.iter_Iter → R (GenFn.iter_Iter × List (Option Nat))
   | 0, it => .ok (it, [])
-  | m+1, it => (genItRun c m it).bind fun r =>
+  | m+1, it => (efGenItRun c m it).bind fun r =>
       (GenFn.iter_Iter.next c r.1).bind fun s => .ok (s.1, r.2 ++ [s.2])
 
-theorem genItRun_eq (c : Cfg) (e : EF) (ok : EFOk c e) : ∀ (n : Nat) (m0 : EF.It), ItOkM e m0 →
-    genItRun c n (itCon e m0) = (EFQ.itRun c e n m0).map (fun r => (itCon e r.1, r.2)) ∧
-    ∀ r, EFQ.itRun c e n m0 = .ok r → ItOkM e r.1 := by
+theorem efGenItRun_eq (c : Cfg) (e : EF) (ok : EFOk c e) : ∀ (n : Nat) (m0 : EF.It), EFItOk e m0 →
+    efGenItRun c n (efItCon e m0) = (EFQ.itRun c e n m0).map (fun r => (efItCon e r.1, r.2)) ∧
+    ∀ r, EFQ.itRun c e n m0 = .ok r → EFItOk e r.1 := by
   intro n
   induction n with
   | zero =>
@@ -151,8 +151,8 @@ theorem genItRun_eq (c : Cfg) (e : EF) (ok : EFOk c e) : ∀ (n : Nat) (m0 : EF.
   | succ n ih =>
     intro m0 w
     obtain ⟨ih1, ih2⟩ := ih m0 w
-    show (genItRun c n (itCon e m0)).bind _ = Except.map _ ((EFQ.itRun c e n m0).bind _) ∧
-      ∀ r : EF.It × List (Option Nat), (EFQ.itRun c e n m0).bind _ = .ok r → ItOkM e r.1
+    show (efGenItRun c n (efItCon e m0)).bind _ = Except.map _ ((EFQ.itRun c e n m0).bind _) ∧
+      ∀ r : EF.It × List (Option Nat), (EFQ.itRun c e n m0).bind _ = .ok r → EFItOk e r.1
     rw [ih1]
     cases hrun : EFQ.itRun c e n m0 with
     | error x => exact ⟨rfl, fun r hr => by cases hr⟩
@@ -169,7 +169,7 @@ theorem genItRun_eq (c : Cfg) (e : EF) (ok : EFOk c e) : ∀ (n : Nat) (m0 : EF.
         refine ⟨rfl, ?_⟩
         intro r hr
         cases hr
-        exact next_okM c e ok m1 m2 a w1 hnx
+        exact ef_next_okM c e ok m1 m2 a w1 hnx
 
 /-- what the generated queries must answer on `e` for the stored list `xs` and universe `u` — `C04.Answers` with the
     generated functions in place of the model's -/
@@ -184,7 +184,7 @@ structure GenAnswers (c : Cfg) (e : EF) (u : Nat) (xs : List Nat) : Prop where
   pred     : ∀ p, GenFn.EliasFano.predecessor c e p = .ok (if p < u then EFQ.predV xs p else none)
   succ     : ∀ p, GenFn.EliasFano.successor c e p = .ok (if p < u then EFQ.succV xs p else none)
   iter     : ∀ k, ∃ it0, GenFn.EliasFano.iter c e k = .ok it0 ∧
-               ∀ t, ∃ it', genItRun c (xs.length - k + t) it0 = .ok (it', (xs.drop k).map some ++ List.replicate t none)
+               ∀ t, ∃ it', efGenItRun c (xs.length - k + t) it0 = .ok (it', (xs.drop k).map some ++ List.replicate t none)
   bs_none  : ∀ lo hi v, (hi ≤ lo ∨ xs.length < hi) → GenFn.EliasFano.binsearch_range c e (lo, hi) v = .ok none
   bs_some  : ∀ lo hi v, lo < hi → hi ≤ xs.length → ∃ r, GenFn.EliasFano.binsearch_range c e (lo, hi) v = .ok r ∧
                match r with
@@ -193,7 +193,7 @@ structure GenAnswers (c : Cfg) (e : EF) (u : Nat) (xs : List Nat) : Prop where
   bs_all   : ∀ v, GenFn.EliasFano.binsearch c e v = GenFn.EliasFano.binsearch_range c e (0, xs.length) v
 
 /-- the model's answers (`C04.Answers`) carry over to the generated functions on every `e` with `EFOk c e` -/
-theorem gen_answers (c : Cfg) (e : EF) (u : Nat) (xs : List Nat) (ok : EFOk c e) (A : C04.Answers c e u xs) :
+theorem ef_gen_answers (c : Cfg) (e : EF) (u : Nat) (xs : List Nat) (ok : EFOk c e) (A : C04.Answers c e u xs) :
     GenAnswers c e u xs where
   len := A.len
   is_empty := by rw [ef_is_empty_eq, A.len]
@@ -205,11 +205,11 @@ theorem gen_answers (c : Cfg) (e : EF) (u : Nat) (xs : List Nat) (ok : EFOk c e)
   succ := fun p => by rw [ef_successor_eq c e ok]; exact A.succ p
   iter := fun k => by
     obtain ⟨m0, h0, hrun⟩ := A.iter k
-    refine ⟨itCon e m0, by rw [ef_iter_eq c e ok, h0]; rfl, ?_⟩
+    refine ⟨efItCon e m0, by rw [ef_iter_eq c e ok, h0]; rfl, ?_⟩
     intro t
     obtain ⟨m', hm'⟩ := hrun t
-    refine ⟨itCon e m', ?_⟩
-    rw [(genItRun_eq c e ok _ m0 (iter_okM c e ok k m0 h0)).1, hm']; rfl
+    refine ⟨efItCon e m', ?_⟩
+    rw [(efGenItRun_eq c e ok _ m0 (ef_iter_okM c e ok k m0 h0)).1, hm']; rfl
   bs_none := fun lo hi v h => by rw [ef_binsearch_range_eq c e ok]; exact A.bs_none lo hi v h
   bs_some := fun lo hi v h1 h2 => by rw [ef_binsearch_range_eq c e ok]; exact A.bs_some lo hi v h1 h2
   bs_all := fun v => by
@@ -234,13 +234,13 @@ theorem ef_built_answers (c : Cfg) (b : EFB) (xs : List Nat) (h : Holds b xs) (h
   obtain ⟨b1, b2, _⟩ := EFQ.built_queries c b xs h hu (EFQ.high_ofBuilder c b xs h)
   refine ⟨EF.ofBuilder c b, (EF.ofBuilder c b).enableRank c, ef_build_eq c b hl,
     ef_enable_rank_eq c _ (by rw [hbv]; exact h.hinv) (by rw [hbv]; exact hl),
-    gen_answers c _ b.univ xs ok1 ⟨a1, rfl, a2, a3, a4, a5, a6, a7, a8, a9, a10⟩, rfl, b1, rfl, ?_, rfl⟩
+    ef_gen_answers c _ b.univ xs ok1 ⟨a1, rfl, a2, a3, a4, a5, a6, a7, a8, a9, a10⟩, rfl, b1, rfl, ?_, rfl⟩
   intro k
   rw [ef_select_eq c _ ok0]; exact b2 k
 
 /-! ### sequences built by the generated `new` + push history / `new` + `extend` -/
 
-theorem run_lowLen : ∀ (hist : List Nat) (s s' : EFB) (vs : List Bool), EFB.run s hist = .ok (s', vs) →
+theorem efb_run_lowLen : ∀ (hist : List Nat) (s s' : EFB) (vs : List Bool), EFB.run s hist = .ok (s', vs) →
     s'.lowLen = s.lowLen := by
   intro hist
   induction hist with
@@ -262,7 +262,7 @@ theorem run_lowLen : ∀ (hist : List Nat) (s s' : EFB) (vs : List Bool), EFB.ru
         cases h
         rw [ih s1 s2 ws hr, (Space.push_params s s1 v a hp).2.2]
 
-theorem extend_fits : ∀ (vs : List Nat) (s s' : EFB) (r : Bool), Fits s → EFB.extend s vs = .ok (s', r) →
+theorem efb_extend_fits : ∀ (vs : List Nat) (s s' : EFB) (r : Bool), Fits s → EFB.extend s vs = .ok (s', r) →
     Fits s' ∧ s'.lowLen = s.lowLen := by
   intro vs
   induction vs with
@@ -288,10 +288,10 @@ theorem extend_fits : ∀ (vs : List Nat) (s s' : EFB) (r : Bool), Fits s → EF
         exact ⟨g1, by rw [g2, hl1]⟩
 
 /-- `low_len` of the builder the model's `new` returns -/
-theorem new_lowLen (u m : Nat) (b : EFB) (h : EFB.new u m = some b) : b.lowLen = lowLenOf u m :=
+theorem efb_new_lowLen (u m : Nat) (b : EFB) (h : EFB.new u m = some b) : b.lowLen = lowLenOf u m :=
   (Space.new_params u m b h).2.2.2
 
-theorem built_bounds (b : EFB) (xs : List Nat) (u m : Nat) (h : Holds b xs) (hf : Fits b) (hu : b.univ = u)
+theorem efb_built_bounds (b : EFB) (xs : List Nat) (u m : Nat) (h : Holds b xs) (hf : Fits b) (hu : b.univ = u)
     (hm : b.numVals = m) (hll : b.lowLen = lowLenOf u m) (hsz : m + (u >>> lowLenOf u m) + 2 < 2^63) :
     b.high.len < 2^63 ∧ xs.length * b.lowLen < 2^64 := by
   refine ⟨by rw [h.hlen, hu, hm, hll]; exact hsz, ?_⟩
@@ -320,11 +320,11 @@ theorem ef_generated_answers (c : Cfg) (u m : Nat) (hist : List Nat) (hm : m ≠
   obtain ⟨b', hr, hh', hub, hmb⟩ := run_spec hist b0 [] hh
   obtain ⟨e1, e2⟩ := genRun_eq c hist b0 hf0
   have hf' : Fits b' := e2 b' _ hr
-  have hll : b'.lowLen = lowLenOf u m := by rw [run_lowLen hist b0 b' _ hr, new_lowLen u m b0 hn]
+  have hll : b'.lowLen = lowLenOf u m := by rw [efb_run_lowLen hist b0 b' _ hr, efb_new_lowLen u m b0 hn]
   rw [hu0, hm0] at hr hh'
   rw [hu0] at hub
   rw [hm0] at hmb
-  obtain ⟨g1, g2⟩ := built_bounds b' _ u m hh' hf' hub hmb hll hsz
+  obtain ⟨g1, g2⟩ := efb_built_bounds b' _ u m hh' hf' hub hmb hll hsz
   obtain ⟨e0, e, k1, k2, k3, k4, k5, k6, k7, k8⟩ := ef_built_answers c b' _ hh' (by rw [hub]; exact hu) g1 g2
   rw [hub] at k3 k6
   refine ⟨b0, b', e0, e, hgn, ?_, k1, k2, k3, k4, k5, k6, k7, k8⟩
@@ -345,15 +345,109 @@ theorem ef_generated_answers_extend (c : Cfg) (u m : Nat) (vs : List Nat) (hm : 
   have hgn : GenFn.EliasFanoBuilder.new c u m = .ok (RS.Res.ok b0) := by
     rw [efb_new_eq c u m hu (fun _ => by omega), hn]; rfl
   obtain ⟨b', n, hn', he, hh', hub, hmb, _⟩ := C16.extend_spec vs b0 [] hh
-  obtain ⟨hf', hl'⟩ := extend_fits vs b0 b' _ hf0 he
-  have hll : b'.lowLen = lowLenOf u m := by rw [hl', new_lowLen u m b0 hn]
+  obtain ⟨hf', hl'⟩ := efb_extend_fits vs b0 b' _ hf0 he
+  have hll : b'.lowLen = lowLenOf u m := by rw [hl', efb_new_lowLen u m b0 hn]
   rw [hu0] at hub
   rw [hm0] at hmb
   rw [List.nil_append] at hh'
-  obtain ⟨g1, g2⟩ := built_bounds b' _ u m hh' hf' hub hmb hll hsz
+  obtain ⟨g1, g2⟩ := efb_built_bounds b' _ u m hh' hf' hub hmb hll hsz
   obtain ⟨e0, e, k1, k2, k3, k4, k5, k6, k7, k8⟩ := ef_built_answers c b' _ hh' (by rw [hub]; exact hu) g1 g2
   rw [hub] at k3 k6
   refine ⟨b0, b', n, e0, e, hn', hgn, ?_, k1, k2, k3, k5, k6, k7⟩
   rw [efb_extend_eq c b0 hf0 vs, he]; rfl
+
+/-! ### `from_bits` at specification level -/
+
+/-- what the model's `EF.fromBV` returns: `none` (`Err`) for an all-zero (or empty) vector, otherwise `build()` of a
+    builder holding the positions of the ones -/
+theorem ef_fromBV_ok (c : Cfg) (bv : BV) (h : bv.Inv) (hl : 2 * bv.len + 2 < 2^63) :
+    (cnt bv.bitAt bv.len = 0 → EF.fromBV c bv = .ok none) ∧
+    (cnt bv.bitAt bv.len ≠ 0 → ∃ b', EF.fromBV c bv = .ok (some (EF.ofBuilder c b')) ∧
+      Holds b' (SA.ones bv.bitAt bv.len) ∧ b'.univ = bv.len ∧ b'.high.len < 2^63 ∧
+      (SA.ones bv.bitAt bv.len).length * b'.lowLen < 2^64) := by
+  unfold EF.fromBV
+  simp only [SA.sumPop_all c bv h]
+  constructor
+  · intro hz
+    by_cases hl0 : bv.len = 0
+    · rw [if_pos hl0]
+    · rw [if_neg hl0, if_pos hz]
+  · intro hz
+    have hl0 : bv.len ≠ 0 := by
+      intro h0; rw [h0] at hz; exact hz rfl
+    rw [if_neg hl0, if_neg hz]
+    have hcl := cnt_le bv.bitAt bv.len
+    have hn : bv.len < 2^64 := by omega
+    obtain ⟨b0, hnew, hh0, hu0, hm0⟩ := new_holds bv.len (cnt bv.bitAt bv.len) hz hn
+    have hshr : bv.len >>> lowLenOf bv.len (cnt bv.bitAt bv.len) ≤ bv.len := by
+      rw [Nat.shiftRight_eq_div_pow]; exact Nat.div_le_self _ _
+    have hf0 : Fits b0 := fits_new _ _ b0 hn hnew (by omega)
+    rw [hnew]
+    simp only []
+    obtain ⟨b', hpa, hh', hu', hm'⟩ := SA.pushAll_ok (SA.ones bv.bitAt bv.len) b0 [] hh0
+      (by simpa using SA.ones_sorted bv.bitAt bv.len)
+      (by rw [hu0]; exact SA.ones_lt bv.bitAt bv.len)
+      (by rw [hm0, SA.ones_length]; simp)
+    have hpa' : EF.pushAll b0 ((List.range bv.len).filter bv.bitAt) = .ok (some b') := hpa
+    obtain ⟨q1, q2, q3⟩ := Space.pushAll_params _ _ _ hpa
+    rw [List.nil_append] at hh'
+    have hll : b0.lowLen = lowLenOf bv.len (cnt bv.bitAt bv.len) := efb_new_lowLen _ _ b0 hnew
+    refine ⟨b', by rw [hpa', EFQ.bind_ok], hh', by rw [hu', hu0], ?_, ?_⟩
+    · rw [hh'.hlen, q1, q2, q3, hu0, hm0, hll]; omega
+    · have := hf0.lowFits
+      rw [SA.ones_length, q3, ← hm0]; exact this
+
+/-- **`from_bits` over the generated definitions, at specification level**: on a bit sequence without a set bit
+    `from_bits` is `Err`; otherwise it succeeds, `enable_rank` succeeds, and the generated queries answer about the
+    positions of the set bits (`SA.ones`), universe `len` -/
+theorem ef_from_bits_answers (c : Cfg) (bits : List Bool) (hl : 2 * bits.length + 2 < 2^63) :
+    (cnt (C02.bitOf bits) bits.length = 0 → GenFn.EliasFano.from_bits c bits = .ok RS.Res.err) ∧
+    (cnt (C02.bitOf bits) bits.length ≠ 0 → ∃ e0 e, GenFn.EliasFano.from_bits c bits = .ok (RS.Res.ok e0) ∧
+      GenFn.EliasFano.enable_rank c e0 = .ok e ∧
+      GenAnswers c e bits.length (SA.ones (C02.bitOf bits) bits.length) ∧
+      GenFn.EliasFano.len e0 = cnt (C02.bitOf bits) bits.length ∧ GenFn.EliasFano.universe e0 = bits.length ∧
+      (∀ k, GenFn.EliasFano.select c e0 k = .ok (sel (C02.bitOf bits) bits.length k))) := by
+  have hinv := (BV.fromBits_spec bits).1
+  have hlen : (BV.fromBits bits).len = bits.length := BV.fromBits_len bits
+  have hbit : (BV.fromBits bits).bitAt = C02.bitOf bits := funext (fun j => BV.fromBits_bitAt bits j)
+  obtain ⟨m1, m2⟩ := ef_fromBV_ok c (BV.fromBits bits) hinv (by rw [hlen]; exact hl)
+  rw [hlen, hbit] at m1 m2
+  rw [ef_from_bits_eq c bits hl]
+  constructor
+  · intro hz; rw [m1 hz]; rfl
+  · intro hz
+    obtain ⟨b', hfb, hh', hu', g1, g2⟩ := m2 hz
+    obtain ⟨e0, e, k1, k2, k3, k4, k5, k6, k7, k8⟩ :=
+      ef_built_answers c b' _ hh' (by rw [hu']; omega) g1 g2
+    rw [ef_build_eq c b' g1] at k1
+    cases k1
+    rw [hu'] at k3 k6
+    refine ⟨_, e, by rw [hfb]; rfl, k2, k3, by rw [k5, SA.ones_length], k6, ?_⟩
+    intro k; rw [k7 k, SA.ones_getElem?]
+
+/-! ## Non-vacuity: the generated pipeline evaluated by the kernel (checked build, `loop` fuel of `2^64` included) -/
+
+/-- `new(20, 4)`, `extend([1, 3, 3, 17])`, `build()`, `enable_rank()` — all generated code -/
+def efDemo (c : Cfg) : R EF :=
+  (GenFn.EliasFanoBuilder.new c 20 4).bind fun r => (RS.unwrapRes r).bind fun b0 =>
+  (GenFn.EliasFanoBuilder.extend c b0 [1, 3, 3, 17]).bind fun r1 =>
+  (GenFn.EliasFanoBuilder.build c r1.1).bind fun e0 => GenFn.EliasFano.enable_rank c e0
+
+example : ((efDemo ⟨true, false⟩).bind fun e => GenFn.EliasFano.select ⟨true, false⟩ e 3).toOption = some (some 17) := by
+  decide +kernel
+example : ((efDemo ⟨true, false⟩).bind fun e => GenFn.EliasFano.rank ⟨true, false⟩ e 4).toOption = some (some 3) := by
+  decide +kernel
+example : ((efDemo ⟨false, true⟩).bind fun e => GenFn.EliasFano.predecessor ⟨false, true⟩ e 16).toOption = some (some 3) := by
+  decide +kernel
+example : ((efDemo ⟨true, false⟩).bind fun e => GenFn.EliasFano.delta ⟨true, false⟩ e 3).toOption = some (some 14) := by
+  decide +kernel
+example : ((efDemo ⟨true, false⟩).bind fun e => GenFn.EliasFano.binsearch ⟨true, false⟩ e 17).toOption = some (some 3) := by
+  decide +kernel
+example : ((efDemo ⟨true, false⟩).bind fun e => (GenFn.EliasFano.iter ⟨true, false⟩ e 1).bind fun it =>
+    (efGenItRun ⟨true, false⟩ 4 it).bind fun r => .ok r.2).toOption = some [some 3, some 3, some 17, none] := by
+  decide +kernel
+example : ((GenFn.EliasFano.from_bits ⟨true, false⟩ [false, true, false, true, true]).bind fun r =>
+    (RS.unwrapRes r).bind fun e => GenFn.EliasFano.select ⟨true, false⟩ e 2).toOption = some (some 4) := by
+  decide +kernel
 
 end Sucds.GenEq
